@@ -192,10 +192,17 @@ class C12(OptEngineBase):
                 ops.append({"op": "recreate", "how": rng.choice(["pickle", "deepcopy"])})
             if k > 0 and rng.random() < 0.12:
                 # between two calls the user re-positions a vertex or toggles a fixed flag; the stepper twin follows
-                if rng.random() < 0.5:
-                    ops.append({"op": "move_vertex", "k": rng.randrange(len(verts)), "delta": [rng.gauss(0, 0.3) for _ in range(6)]})
-                else:
+                r2 = rng.random()
+                if r2 < 0.25:
+                    # the user re-weights an edge or replaces its measurement between two calls
+                    ops.append({"op": "edit_edge", "k": rng.randrange(1000), "what": rng.choice(["information", "estimate"]), "scale": rng.choice([2.0, 0.5, 3.0])})
+                elif r2 < 0.6:
+                    ops.append({"op": "move_vertex", "k": rng.randrange(len(verts)), "delta": [rng.gauss(0, 0.3) for _ in range(6)], "inplace": rng.random() < 0.5})
+                elif rng.random() < 0.5:
                     ops.append({"op": "set_fixed", "k": rng.randrange(len(verts)), "value": rng.random() < 0.5})
+                else:
+                    # release one of the vertices that are fixed at that moment (k-th of them)
+                    ops.append({"op": "set_fixed", "k": rng.randrange(len(verts)), "value": False, "among_fixed": True})
             small = rng.random() < 0.5
             ops.append({
                 "op": "optimize",
@@ -209,6 +216,8 @@ class C12(OptEngineBase):
             })
             if rng.random() < 0.12:
                 ops[-1]["arg_types"] = rng.choice(["np_float64", "np_float32", "np_int64", "int_tol"])
+            if rng.random() < 0.12:
+                ops[-1]["call_style"] = "positional"
             if rng.random() < 0.08:
                 # the documented defaults: optimize() == optimize(tol=1e-4, max_iter=20, fix_first_pose=True, verbose=True)
                 ops[-1].update({"use_defaults": True, "tol": 1e-4, "max_iter": 20, "fix_first_pose": True, "verbose": True})
@@ -274,18 +283,44 @@ class C12(OptEngineBase):
                     log.note("recreate", op["how"])
                     sig_ops.append("recreate:" + op["how"])
                     continue
+                if op["op"] == "edit_edge":
+                    for G in ([A] if dry else [A, B]):
+                        if not G._edges:
+                            continue
+                        e = G._edges[op["k"] % len(G._edges)]
+                        if op["what"] == "information":
+                            e.information = np.array(e.information, dtype=np.float64) * float(op["scale"])
+                        elif isinstance(e.estimate, np.ndarray) and e.estimate.ndim:
+                            spec = graphs.estimate_to_spec(e.estimate)
+                            est = graphs.estimate_from_spec(spec)
+                            est[0] = float(est[0]) * float(op["scale"]) + 0.25
+                            e.estimate = est
+                    if not dry:
+                        res.probe("user_edit_between_calls")
+                        force_clone = True
+                    log.note("edit_edge", [op["k"], op["what"]])
+                    sig_ops.append("edit_edge:" + op["what"])
+                    continue
                 if op["op"] in ("move_vertex", "set_fixed"):
                     for G in ([A] if dry else [A, B]):
                         v = G._vertices[op["k"] % len(G._vertices)]
+                        if op.get("among_fixed"):
+                            fx_ = [u for u in G._vertices if u.fixed]
+                            if fx_:
+                                v = fx_[op["k"] % len(fx_)]
                         if op["op"] == "set_fixed":
                             v.fixed = bool(op["value"])
                         else:
                             d = np.array(op["delta"][: v.pose.COMPACT_DIMENSIONALITY], dtype=np.float64)
                             if v.pose.COMPACT_DIMENSIONALITY == 6:
                                 d[3:] *= 0.3
-                            v.pose = v.pose + d
+                            if op.get("inplace"):
+                                v.pose[:] = v.pose + d
+                            else:
+                                v.pose = v.pose + d
                     if not dry:
                         res.probe("user_edit_between_calls")
+                        force_clone = True  # whatever the earlier calls left behind must not matter after the edit
                     log.note(op["op"], op["k"])
                     sig_ops.append(op["op"])
                     continue
@@ -320,6 +355,8 @@ class C12(OptEngineBase):
                         if not dry:
                             res.probe("called_with_defaults")
                         result = A.optimize()
+                    elif op.get("call_style") == "positional":
+                        result = A.optimize(kw["tol"], kw["max_iter"], kw["fix_first_pose"], op["verbose"])
                     else:
                         result = A.optimize(verbose=op["verbose"], **kw)
                 except SimulatedInterrupt as e:  # Ctrl-C delivered by the simulator while user edge code runs
